@@ -4,6 +4,7 @@ every behaviour; each is replayed into the real dtml-var (several written orders
 both syntaxes, entity form) and the text compared."""
 import itertools
 import json
+import os
 
 from harness import common, tlc
 from harness.tlaval import Raw, mc_module, tla
@@ -227,8 +228,11 @@ def run(pid, tier, sweeps, classify, assumptions, rule, invs=INVS, post=None):
     V = common.Verdicts(pid, tier)
     states = trans = nexp = 0
     samples = []
-    for sw in sweeps:
+    for si, sw in enumerate(sweeps):
+        t_sw = __import__('time').time()
         res, out = run_sweep(sw, invs)
+        if os.environ.get('VERIF_DEBUG'):
+            print('sweep %d: %d behaviours, TLC %.0fs' % (si, len(out), __import__('time').time() - t_sw), flush=True)
         states += res.distinct
         trans += res.generated
         nexp += len(out)
